@@ -108,6 +108,63 @@ theorem linked_discrete_same_index (n : Nat) (h : 1 ≤ n) (v : Int) :
     (DVDom.discrete n).inDom (correctDiscrete n v) = true :=
   correct_in_domain (.discrete n) (by simpa [DVDom.WF] using h) v
 
+/-- Correction is the *nearest* in-domain value (a projection): no other admissible value is closer
+    to the input than the one the node receives. -/
+theorem correct_nearest (d : DVDom) (h : d.WF = true) (v w : Int) (hw : d.inDom w = true) :
+    (d.correct v - v).natAbs ≤ (w - v).natAbs := by
+  cases d with
+  | discrete n =>
+    simp only [DVDom.WF, decide_eq_true_eq] at h
+    simp only [DVDom.inDom, Bool.and_eq_true, decide_eq_true_eq] at hw
+    simp only [DVDom.correct, correctDiscrete]
+    split <;> (try split) <;> omega
+  | cont lo hi =>
+    simp only [DVDom.WF, decide_eq_true_eq] at h
+    simp only [DVDom.inDom, Bool.and_eq_true, decide_eq_true_eq] at hw
+    simp only [DVDom.correct, correctCont, clampG]
+    split <;> (try split) <;> omega
+
+/-- A value is changed by correction only when it lies outside the domain. -/
+theorem correct_changes_only_outside (d : DVDom) (v : Int) (hne : d.correct v ≠ v) :
+    d.inDom v = false := by
+  cases hd : d.inDom v with
+  | false => rfl
+  | true => exact absurd (correct_id_on_domain d v hd) hne
+
+/-- Truncation of a negative input also moves toward zero and by less than one (Python's `int()`
+    is not `floor`): `int(-0.5) = 0`, so a slightly negative value selects option 0 directly. -/
+theorem trunc_bounds_neg (num : Int) (den : Nat) (hd : 0 < den) (hn : num ≤ 0) :
+    num ≤ pyTrunc num den * den ∧ (pyTrunc num den - 1) * den < num := by
+  have hd' : (0 : Int) < den := by exact_mod_cast hd
+  obtain ⟨m, rfl⟩ : ∃ m : Int, num = -m := ⟨-num, by omega⟩
+  have hm : 0 ≤ m := by omega
+  simp only [pyTrunc]
+  rw [Int.neg_tdiv, Int.tdiv_eq_ediv_of_nonneg hm]
+  have h1 := Int.ediv_mul_le m (Int.ne_of_gt hd')
+  have h2 := Int.lt_ediv_add_one_mul_self m hd'
+  constructor
+  · rw [Int.neg_mul]; omega
+  · have : (-(m / (den : Int)) - 1) * (den : Int) = -((m / (den : Int) + 1) * (den : Int)) := by
+      rw [← Int.neg_mul]; congr 1; omega
+    rw [this]; omega
+
+/-- Truncation never leaves the sign class: a non-negative input gives a non-negative index and a
+    non-positive input a non-positive one (which `correct_value` then clamps to 0). -/
+theorem trunc_sign (num : Int) (den : Nat) :
+    (0 ≤ num → 0 ≤ pyTrunc num den) ∧ (num ≤ 0 → pyTrunc num den ≤ 0) := by
+  constructor
+  · intro hn
+    simp only [pyTrunc]
+    rw [Int.tdiv_eq_ediv_of_nonneg hn]
+    exact Int.ediv_nonneg hn (Int.natCast_nonneg den)
+  · intro hn
+    obtain ⟨m, rfl⟩ : ∃ m : Int, num = -m := ⟨-num, by omega⟩
+    have hm : 0 ≤ m := by omega
+    simp only [pyTrunc]
+    rw [Int.neg_tdiv, Int.tdiv_eq_ediv_of_nonneg hm]
+    have := Int.ediv_nonneg hm (Int.natCast_nonneg den)
+    omega
+
 /-! Non-vacuity: concrete non-trivial instances of the hypotheses / conclusions. -/
 example : (DVDom.discrete 3).WF = true ∧ (DVDom.discrete 3).correct 7 = 2 ∧ (DVDom.discrete 3).correct (-4) = 0 := by decide
 example : (DVDom.cont (-5) 7).WF = true ∧ (DVDom.cont (-5) 7).correct 9 = 7 ∧ (DVDom.cont (-5) 7).correct 1 = 1 := by decide
